@@ -146,6 +146,12 @@ def out_of_range_spelling(rng, t, cv):
         if mode == "trunc" and abs(cv) == math.inf:
             big = rng.choice([10 ** 400]) if (w == 64 or rng.random() < 0.3) else float(mx) * 4.0
             return big if cv > 0 else -big
+        if w == 32 and abs(cv) != math.inf and abs(cv) >= 2.0 ** 56 and rng.random() < 0.6:
+            # a Python int just short of the midpoint between cv and its binary32 neighbour: the nearest binary32 is still cv
+            # (also at the largest finite value: below the overflow midpoint nothing overflows), although the nearest
+            # binary64 is the midpoint itself - a conversion that goes through a double rounds twice
+            half_ulp = 1 << (math.frexp(cv)[1] - 24 - 1)
+            return int(cv) + rng.choice([1, -1]) * (half_ulp - 1)
         return None
     return None
 
